@@ -35,6 +35,12 @@ def eq(req, a, b):
     words must be a subset of the words the model can produce; smeasure: one of the `|`-separated outcomes)."""
     if a == b:
         return True
+    k0 = req.split(" ", 1)[0]
+    if k0 == "auto":
+        # (A) compares Circuit::is_stabilizer_circuit() with the model's conjunction; the run results are judged by (B)
+        return a.split(" ")[:2] == b.split(" ")[:2]
+    if k0 == "hist":
+        return b == "any"
     if b.startswith("any "):
         k = req.split(" ", 1)[0]
         if k == "peekall" and a.startswith("obs "):
